@@ -251,17 +251,18 @@ def build_tree(sc: dict, root: str) -> T.Tuple[str, str, T.List[str]]:
     sub_do = entries(S2)
     call_do = entries(S6)
     kinds = sc['kinds']
+    kinds_top = {**kinds, **sc.get('kinds_top', {})}
     top_probe = [p for p in sc['probe_top'] if p not in NO_MESSAGE]
     sub_probe = [p for p in sc['probe_sub'] if p not in NO_MESSAGE]
     top = f"project('top'{langarg}, meson_version: '>=1.8.0'"
     if top_do:
         top += ', default_options: ' + do_list(top_do, form)
-    top += ')\n' + probe_lines('top', top_probe, kinds)
+    top += ')\n' + probe_lines('top', top_probe, kinds_top)
     if not sc.get('no_sub'):
         top += "subproject('sub'"
         if call_do:
             top += ', default_options: ' + do_list(call_do, form)
-        top += ')\n' + probe_lines('top2', top_probe, kinds)
+        top += ')\n' + probe_lines('top2', top_probe, kinds_top)
     sub = f"project('sub'{langarg}, meson_version: '>=1.8.0'"
     if sub_do:
         sub += ', default_options: ' + do_list(sub_do, form)
@@ -416,6 +417,12 @@ def run_scenario(sc: dict, root: str) -> dict:
             chans: T.List[T.Tuple[str, T.Any, bool]] = []   # channel, observed, equal?
             wl = [where] + (['top2'] if where == 'top' and not sc.get('no_sub') else [])
             documented = exp['documented']
+            if exp.get('dir_default_of_observed_prefix'):
+                # the default of a prefix-dependent directory must belong to the prefix meson itself reports
+                op = msgs.get('top|prefix')
+                if op and len(op) == 1:
+                    exp = dict(exp, value=R.dir_default(name, op[0]))
+                    cnt['monitor:dir_default_follows_reported_prefix'] = cnt.get('monitor:dir_default_follows_reported_prefix', 0) + 1
             allowed = [exp['value']] if documented else exp['allowed']
             for w in ([] if name in NO_MESSAGE else wl):
                 got = msgs.get(w + '|' + name)
@@ -588,6 +595,113 @@ def gen_dirs(seed: int, thorough: bool) -> T.List[dict]:
                     sc['expect']['top|' + n] = exp(res[n])
                     sc['expect']['sub|' + n] = exp(res[n])
                 out.append(sc)
+    return out
+
+
+def gen_prefix_spellings(thorough: bool) -> T.List[dict]:
+    """The same prefix written with a trailing slash (and, consistency-only, a doubled one), for /usr,
+    /usr/local and another prefix, at every source incl. --prefix.  How get_option('prefix') spells the
+    value is not documented (either spelling accepted); the three prefix-dependent directory defaults
+    must be the ones that belong to the prefix meson reports."""
+    out = []
+    forms = [(S1, 'proj'), (S3, 'mfile'), (S4, 'cmd'), ('--prefix', 'dashdash')]
+    for base in PREFIXES:
+        for spelled, tag in ((base + '/', 'slash'), (base + '//', 'slash2')):
+            for src_, sname in forms:
+                if tag == 'slash2' and not thorough and src_ != S4:
+                    continue
+                sc = new_sc(f'DIRS:{base}:{tag}:{sname}', 'DIRS', scope='prefix-spelling')
+                if src_ == '--prefix':
+                    sc['extra_argv'] = ['--prefix', spelled]
+                else:
+                    add_src(sc, src_, 'prefix', spelled)
+                norm = spelled[:-1]
+                for n in ('prefix', 'sysconfdir', 'localstatedir', 'sharedstatedir', 'bindir'):
+                    sc['kinds'][n] = 'string'
+                    sc['probe_top'].append(n)
+                    sc['probe_sub'].append(n)
+                    for w in ('top', 'sub'):
+                        if n == 'prefix':
+                            sc['expect'][f'{w}|{n}'] = {'value': None, 'winner': sname, 'documented': False,
+                                                        'allowed': [spelled, norm, base]}
+                        else:
+                            sc['expect'][f'{w}|{n}'] = {'value': R.dir_default(n, norm), 'winner': 'default', 'documented': True,
+                                                        'allowed': None, 'dir_default_of_observed_prefix': True}
+                out.append(sc)
+    return out
+
+
+YT_KINDS: T.Dict[str, dict] = {
+    'string': {'kind': 'string'},
+    'boolean': {'kind': 'boolean'},
+    'integer': {'kind': 'integer', 'min': 0, 'max': 1000},
+    'combo': {'kind': 'combo', 'choices': [f'c{i}' for i in range(12)]},
+    'fcombo': {'kind': 'combo', 'choices': ['enabled', 'disabled', 'auto', 'c3', 'c4', 'c5', 'c6', 'c7', 'c8', 'c9']},
+    'array': {'kind': 'array', 'choices': [f'a{i}' for i in range(12)]},
+    'feature': {'kind': 'feature'},
+}
+# (subproject kind, parent kind) of a same-named option; the subproject's one says yield: true
+YT_PAIRS = [('combo', 'feature'), ('feature', 'combo'), ('feature', 'fcombo'), ('fcombo', 'feature'), ('string', 'combo'),
+            ('combo', 'string'), ('integer', 'string'), ('string', 'integer'), ('boolean', 'feature'), ('feature', 'boolean'),
+            ('array', 'string'), ('string', 'array'), ('boolean', 'string'), ('integer', 'boolean')]
+
+
+def yt_value(kind: str, name: str, idx: int) -> T.Any:
+    d = YT_KINDS[kind]
+    k = d['kind']
+    if k == 'string':
+        return f'vf_{name}_{idx}'
+    if k == 'integer':
+        return 100 + idx
+    if k == 'combo':
+        return d['choices'][idx % len(d['choices'])]
+    if k == 'array':
+        return [d['choices'][idx], d['choices'][(idx + 5) % 12]]
+    if k == 'boolean':
+        return idx % 2 == 1
+    return ['auto', 'enabled', 'disabled'][idx % 3]
+
+
+def gen_yield_type_mismatch(thorough: bool, seed: int) -> T.List[dict]:
+    """A yielding subproject option whose same-named parent option has a DIFFERENT type, parent set /
+    unset from its three sources, subproject option set / unset from its own sources.  Build-options.md
+    only describes yielding to "an option called some_option"; what a type mismatch does is not
+    documented, so the cell is consistency-only -- but whatever get_option() returns in the subproject
+    must satisfy the subproject option's own declared type / choices / range (C07: "a stored value
+    always satisfies them"): admissible are the subproject's own value by its own sources, or the
+    parent's value if that is a valid value of the subproject's option."""
+    out = []
+    top_sets: T.List[T.Tuple[str, ...]] = [(), (S1,), (S3,), (S4,), (S1, S4)]
+    sub_sets: T.List[T.Tuple[str, ...]] = [(), (S8,), (S2,)]
+    if thorough:
+        top_sets = [tuple(x for i, x in enumerate((S1, S3, S4)) if m >> i & 1) for m in range(8)]
+        sub_sets = [tuple(x for i, x in enumerate(R.SUB_SPECIFIC) if m >> i & 1) for m in range(32)]
+    tag_idx = {S1: 2, S2: 3, S3: 4, S4: 5, S5: 6, S6: 7, S7: 8, S8: 9}
+    for ts in top_sets:
+        for ss in sub_sets:
+            sc = new_sc('YT:' + '+'.join(ts or ('none',)) + ':' + '+'.join(ss or ('none',)), 'YT', scope='yield-type-mismatch',
+                        kinds_top={})
+            for i, (subk, topk) in enumerate(YT_PAIRS):
+                name = f'y{i}'
+                sc['kinds'][name] = YT_KINDS[subk]['kind']
+                sc['kinds_top'][name] = YT_KINDS[topk]['kind']
+                d_top, d_sub = yt_value(topk, name, 0 + seed % 2), yt_value(subk, name, 1 + seed % 2)
+                tv = {s_: yt_value(topk, name, tag_idx[s_]) for s_ in ts}
+                sv = {s_: yt_value(subk, name, tag_idx[s_]) for s_ in ss}
+                for s_, v in list(tv.items()) + list(sv.items()):
+                    add_src(sc, s_, name, v)
+                sc['top_decl'][name] = dict(YT_KINDS[topk], value=d_top)
+                sc['sub_decl'][name] = dict(YT_KINDS[subk], value=d_sub, **{'yield': True})
+                sc['probe_top'].append(name)
+                sc['probe_sub'].append(name)
+                parent = R.resolve_top(tv, d_top)
+                own = R.resolve_sub('project', sv, d_sub)
+                sd = YT_KINDS[subk]
+                ok, cv = R.canon(R.Spec(sd['kind'], None, sd.get('choices'), sd.get('min'), sd.get('max')), parent.value)
+                allowed = [own.value] + ([cv] if ok and cv is not None else [])
+                sc['expect']['top|' + name] = exp(parent)
+                sc['expect']['sub|' + name] = {'value': None, 'winner': None, 'documented': False, 'allowed': allowed}
+            out.append(sc)
     return out
 
 
@@ -957,6 +1071,11 @@ def classify(sc: dict, mm: dict) -> str:
             got_src = 'default'
     scope = sc.get('scope') or sc['group']
     bad_ch = sorted({c[0].split(':')[0] for c in mm['channels'] if not c[2]})
+    if sc['group'] == 'YT':
+        i = int(name[1:])
+        return f'yield-type-mismatch:sub-{YT_PAIRS[i][0]}-parent-{YT_PAIRS[i][1]}:value-not-valid-for-own-option-or-not-own'
+    if sc['group'] == 'DIRS':
+        return f'prefix-spelling:{where}:{name}:default-does-not-follow-reported-prefix'
     if not e['documented']:
         return f'inconsistent:{scope}:{where}:{name}'
     if sc['group'] in ('BT', 'BTS', 'KF') and name in ('debug', 'optimization', 'buildtype'):
@@ -993,7 +1112,7 @@ def worker(arg: T.Tuple[dict, str]) -> dict:
         res['rerun_same'] = (again.get('rc') == res.get('rc') and again.get('observed') == res.get('observed'))
         res['rerun_observed'] = again.get('observed')
     # minimise: re-run every mismatching option alone
-    if res.get('mismatch') and len(sc['probe_top']) + len(sc['probe_sub']) > 2 and sc['group'] not in ('BT', 'BTS', 'DIR'):
+    if res.get('mismatch') and len(sc['probe_top']) + len(sc['probe_sub']) > 2 and sc['group'] not in ('BT', 'BTS', 'DIR', 'DIRS'):
         minimal = []
         for mm in res['mismatch']:
             single = single_option(sc, mm['name'])
@@ -1135,6 +1254,8 @@ def scenarios(chk: common.Check) -> T.List[dict]:
     out += gen_subsets('BG', BUILTIN_GLOBAL, 'builtin_global', gmasks, seed, both_variants=True)
     out += gen_subsets('BGS', BUILTIN_GLOBAL[:8], 'builtin_global', [1 << i for i in (1, 4, 5, 6, 7)] + [0b10001000], seed)
     out += gen_dirs(seed, thorough)
+    out += gen_prefix_spellings(thorough)
+    out += gen_yield_type_mismatch(thorough, seed)
     out += gen_buildtype(seed, thorough, chk.rng)
     out += gen_buildtype_sub(seed)
     out += gen_invalid(thorough, seed)
